@@ -7,16 +7,20 @@ import (
 	"path/filepath"
 )
 
-// native twin of vh_C05_adapter: the statvfs case is run against the real
-// syscall with a working directory that contains the relative path, while the
-// process' own directory does not.
+// native twin of vh_C05_adapter: with a working directory set and relative
+// paths in the request, the request is served by the real handler on a scratch
+// working directory (which is not the process' own directory) and its effect is
+// looked for there. Absolute paths would touch the host's root: those cases
+// are left to the engine (the twin says so with the emit twin_na).
 func vt_C05_adapter() {
 	wdSet := vNondetBool()
 	i1 := vChoice(2)
-	_ = vChoice(2)
+	i2 := vChoice(2)
 	_ = vNondetU32()
 	k := vChoice(12)
-	if k != 10 || !wdSet || i1 != 0 {
+	twoPaths := k >= 3 && k <= 6
+	if !wdSet || i1 != 0 || (twoPaths && i2 != 0) {
+		vEmit("twin_na", 1)
 		return
 	}
 	dir, err := os.MkdirTemp("", "verif-c05-")
@@ -24,11 +28,70 @@ func vt_C05_adapter() {
 		panic(err)
 	}
 	defer os.RemoveAll(dir)
-	os.Mkdir(filepath.Join(dir, "rel"), 0o755)
+	p1, p2 := filepath.Join(dir, "rel"), filepath.Join(dir, "new")
+	exists := func(p string) bool { _, err := os.Lstat(p); return err == nil }
+	switch k {
+	case 0:
+	case 1, 10, 11:
+		os.Mkdir(p1, 0o755)
+	case 7:
+		os.Symlink("tgt", p1)
+	default:
+		os.WriteFile(p1, []byte("x"), 0o644)
+	}
 	svr := vNewServer(false, dir)
-	pkt := &sshFxpExtendedPacket{ID: 1, SpecificPacket: &sshFxpExtendedPacketStatVFS{ID: 1, Path: "rel"}}
+	var pkt requestPacket
+	switch k {
+	case 0:
+		pkt = &sshFxpMkdirPacket{ID: 1, Path: "rel"}
+	case 1:
+		pkt = &sshFxpRmdirPacket{ID: 1, Path: "rel"}
+	case 2:
+		pkt = &sshFxpRemovePacket{ID: 1, Filename: "rel"}
+	case 3:
+		pkt = &sshFxpRenamePacket{ID: 1, Oldpath: "rel", Newpath: "new"}
+	case 4:
+		pkt = &sshFxpExtendedPacket{ID: 1, SpecificPacket: &sshFxpExtendedPacketPosixRename{ID: 1, Oldpath: "rel", Newpath: "new"}}
+	case 5:
+		pkt = &sshFxpExtendedPacket{ID: 1, SpecificPacket: &sshFxpExtendedPacketHardlink{ID: 1, Oldpath: "rel", Newpath: "new"}}
+	case 6:
+		pkt = &sshFxpSymlinkPacket{ID: 1, Targetpath: "rel", Linkpath: "new"}
+	case 7:
+		pkt = &sshFxpReadlinkPacket{ID: 1, Path: "rel"}
+	case 8:
+		pkt = &sshFxpStatPacket{ID: 1, Path: "rel"}
+	case 9:
+		pkt = &sshFxpLstatPacket{ID: 1, Path: "rel"}
+	case 10:
+		pkt = &sshFxpExtendedPacket{ID: 1, SpecificPacket: &sshFxpExtendedPacketStatVFS{ID: 1, Path: "rel"}}
+	case 11:
+		pkt = &sshFxpOpendirPacket{ID: 1, Path: "rel"}
+	}
+	kn := vKindName(pkt)
 	r, _, werr := vWorkerStep(svr, pkt)
 	vAssert(werr == nil, "worker continues")
 	b := vRespBytes(r)
-	vAssert(b[4] == sshFxpExtendedReply, "statvfs@: on the path(s) resolved against the working directory")
+	label := kn + ": on the path(s) resolved against the working directory"
+	code, isStatus := vStatusCode(b)
+	switch k {
+	case 0:
+		vAssert(isStatus && code == sshFxOk && exists(p1), label)
+	case 1, 2:
+		vAssert(isStatus && code == sshFxOk && !exists(p1), label)
+	case 3, 4:
+		vAssert(isStatus && code == sshFxOk && !exists(p1) && exists(p2), label)
+	case 5, 6:
+		vAssert(isStatus && code == sshFxOk && exists(p1) && exists(p2), label)
+	case 7:
+		vAssert(b[4] == sshFxpName, label)
+	case 8, 9:
+		vAssert(b[4] == sshFxpAttrs, label)
+	case 10:
+		vAssert(b[4] == sshFxpExtendedReply, label)
+	case 11:
+		vAssert(b[4] == sshFxpHandle, label)
+	}
+	for _, f := range svr.openFiles {
+		f.Close()
+	}
 }
